@@ -87,6 +87,22 @@ F5 == << Doc("F5", "none-req", SObj(PAB, {})),
          Doc("F5", "arr-props", SObj(Props2("v", SArr(SInt), "m", SMap(SStr)), {})),
          Doc("F5", "bool-num", SObj(Props3("f", SBool, "x", SNum, "u", [type |-> "integer", format |-> "uint8"]), {"f", "x", "u"})) >>
 
+(* F5d: optional members with a schema default, for each kind of member type a default equal to the
+   type's empty / zero value and one that is not: a member present with exactly the default value
+   must survive the round trip (only null / [] / {} may be dropped) *)
+DP(s, d) == With(s, "default", d)
+F5d == << Doc("F5", "dflt-string-empty", SObj(Props2("name", SStr, "nick", DP(SStr, JS(<< >>))), {"name"})),
+          Doc("F5", "dflt-string-x", SObj(Props2("name", SStr, "nick", DP(SStr, JS(<<"x">>))), {"name"})),
+          Doc("F5", "dflt-int-zero", SObj(Props2("name", SStr, "n", DP(SInt, JInt(0))), {"name"})),
+          Doc("F5", "dflt-int-five", SObj(Props2("name", SStr, "n", DP(SInt, JInt(5))), {"name"})),
+          Doc("F5", "dflt-bool-false", SObj(Props2("name", SStr, "b", DP(SBool, JBool(FALSE))), {"name"})),
+          Doc("F5", "dflt-bool-true", SObj(Props2("name", SStr, "b", DP(SBool, JBool(TRUE))), {"name"})),
+          Doc("F5", "dflt-arr-empty", SObj(Props2("name", SStr, "v", DP(SArr(SInt), JArr(<< >>))), {"name"})),
+          Doc("F5", "dflt-arr-one", SObj(Props2("name", SStr, "v", DP(SArr(SInt), JArr(<<JInt(1)>>))), {"name"})),
+          Doc("F5", "dflt-map-empty", SObj(Props2("name", SStr, "m", DP(SMap(SInt), JObj(<< >>, << >>))), {"name"})),
+          Doc("F5", "dflt-enum", SObj(Props2("name", SStr, "c", DP(EnumS(<<JS(<<"r">>), JS(<<"g">>)>>), JS(<<"g">>))), {"name"})),
+          Doc("F5", "dflt-nullable-null", SObj(Props2("name", SStr, "o", DP(SNullable(SInt), JNull)), {"name"})) >>
+
 F6 == << Doc("F6", "map-int", SMap(SInt)),
          Doc("F6", "map-str", SMap(SStr)),
          Doc2("F6", "map-ref", SMap(SRef("N")), "N", SObj(Props1("q", SInt), {"q"})),
@@ -196,6 +212,13 @@ F11 == << Doc("F11", "two-objs", SAllOf(<< SObj(Props1("a", SInt), {"a"}), SObj(
           Doc("F11", "overlap", SAllOf(<< SObj(Props2("a", SInt, "b", SStr), {"a"}), SObj(Props1("b", SStr), {"b"}) >>)),
           Doc("F11", "single", SAllOf(<< SObj(Props1("a", SInt), {"a"}) >>)),
           Doc2("F11", "two-refs", SAllOf(<< SRef("N"), SRef("M") >>), "N", SObj(Props1("q", SInt), {"q"})),
+          (* a property described by both branches: its merged schema keeps every admissible enum value *)
+          Doc("F11", "num-enum-prop", SAllOf(<< SObj(Props1("scale", [type |-> "number", enum |-> <<JInt(1), JHalf(3), JInt(2)>>]), {"scale"}),
+                                                 SObj(Props2("scale", SNum, "label", SStr), {}) >>)),
+          Doc("F11", "str-enum-prop", SAllOf(<< SObj(Props1("c", EnumS(<<JS(<<"r">>), JS(<<"g">>), JS(<<"b">>)>>)), {"c"}),
+                                                 SObj(Props1("c", [type |-> "string", minLength |-> 1]), {}) >>)),
+          Doc("F11", "int-enum-prop", SAllOf(<< SObj(Props1("n", [type |-> "integer", enum |-> <<JInt(1), JInt(2), JInt(3)>>]), {}),
+                                                 SObj(Props1("n", [type |-> "integer", minimum |-> JInt(2)]), {"n"}) >>)),
           Doc("F11", "closed-one", SAllOf(<< SObj(Props1("a", SInt), {"a"}), SObj(Props1("b", SStr), {}) >>)) >>
 
 Fix11 == [i \in DOMAIN F11 |->
@@ -242,5 +265,5 @@ ArrProp(req, uniq, mn, mx) ==
 AFam == LET cs == SetToSeq(BOOLEAN \X BOOLEAN \X {-1, 0, 1} \X {-1, 2})
         IN [i \in DOMAIN cs |-> ArrProp(cs[i][1], cs[i][2], cs[i][3], cs[i][4])]
 
-QuickUniverse == F1 \o F2 \o F3 \o F4 \o F5 \o F6 \o F7 \o F8 \o F9 \o F9b \o F10 \o Fix11 \o N \o AFam
+QuickUniverse == F1 \o F2 \o F3 \o F4 \o F5 \o F5d \o F6 \o F7 \o F8 \o F9 \o F9b \o F10 \o Fix11 \o N \o AFam
 =============================================================================
